@@ -102,7 +102,8 @@ def gen_prog(rng):
          'scenes': rng.choice([0, 1, 1, 2]), 'default_scene': rng.choice([0, 1, 1, 1]),
          'which_scene': rng.randrange(2), 'contributors': rng.choice([0, 1, 2]),
          'title': rng.choice([None, 'a title']), 'yup': rng.randrange(2), 'primkind': rng.randrange(3),
-         'camkind': rng.randrange(2), 'combo': rng.randrange(5), 'library_node': rng.choice([0, 0, 1])}
+         'camkind': rng.randrange(2), 'combo': rng.randrange(5), 'library_node': rng.choice([0, 0, 1]),
+         'extreme': rng.choice([0, 0, 1, 2, 3, 5, 7])}
     if p['geometries'] == 0 and p['cameras'] == 0 and p['lights'] == 0 and rng.random() < 0.7:
         p['cameras'] = 1
     spec = {'kind': 'prog', 'params': p, 'ext': gen_ext(rng), 'via_load': rng.random() < 0.4,
